@@ -44,6 +44,7 @@ LEVEL_TEXT = ("Every generated spec is pushed through the real builder and the r
               "the space is sampled (seeded), not enumerated. Held means: no sampled spec was recovered differently.")
 LEVEL_NOTE = "trusted: urllib.parse.parse_qsl/unquote and json as the application-side decoders; the spec generator"
 NSHARDS = {"quick": 8, "thorough": 16}
+PEAK_COUNTERS = ("loop_rounds_max",)
 TIMEOUT_S = {"quick": 240, "thorough": 1500}
 REQUIRE = {"requests_compared": 1500, "loop_requests_compared": 40, "header_values_compared": 3000,
            "qarg_pairs_compared": 3000, "body_bytes_compared": 20000, "json_bodies_compared": 100,
@@ -262,6 +263,7 @@ class StubRemoter:
 
 
 _state = {"server": None, "ports": None}
+GRACE = 20   # extra rounds with longer yields before "the request never reached the application" is reported
 
 
 def setup(ctx):
@@ -362,12 +364,13 @@ def roundtrip_loop(spec, ctx):
         return [b"ok"]
 
     srv = client = None
+    hl.new_case()
     try:
         srv, port = hl.open_hio_server(http.Server, _state["ports"], app=app)
         client = hl.open_hio_client(port)
         client.request(**kw)
         idle = 0
-        for rnd in range(120):
+        for rnd in range(100 + GRACE):
             try:
                 client.service()
             except Exception as ex:
@@ -387,7 +390,7 @@ def roundtrip_loop(spec, ctx):
                 break
             if rnd > 6:
                 idle += 1
-                hl.idle_wait([client.connector.cs] if client.connector.cs else [], idle)
+                hl.idle_wait([client.connector.cs] if client.connector.cs else [], idle, grace=rnd >= 100)
         ctx.peak("loop_rounds_max", rnd + 1)
         if "env" not in cap:
             wire = bytes(client.requester.msg[:300])
